@@ -34,6 +34,9 @@ def worlds(tier):
         w.W("chain2-havoc-retract", w.fixed_times(w.chain(2)), w.C1, "HAVOC", split=7, havoc=dict(hv, release_taskgraphs=True, retract=True), tasks=small(AB), weight=30),
         w.W("cond2-havoc-release_taskgraphs-2cpu", w.fixed_times(w.cond2()), w.C2, "HAVOC", split=8,
             havoc=dict(hv, release_taskgraphs=True, max_unplaced=0, first_pool_only=True), tasks=small(CJ), weight=60),
+        w.W("three-invocations-of-one-operator-havoc-release_taskgraphs", w.fixed_times(w.chain(3)), w.C2, "HAVOC", split=8,
+            havoc=dict(hv, release_taskgraphs=True, max_unplaced=0, first_pool_only=True), weight=60,
+            tasks={f"T{i}": dict({"strategies": [{"rt": RT3}], "operator": "Camera", "timestamp": i}, **({"release": ["sym", 0, 4]} if i else {})) for i in range(3)}),
         w.W("join-havoc-release_taskgraphs-2cpu", w.fixed_times(w.join()), w.C2, "HAVOC", split=8,
             havoc=dict(hv, release_taskgraphs=True, max_unplaced=0), tasks=small(("A", "B", "C")), weight=60),
     ]
